@@ -493,7 +493,10 @@ def check_no_early_exit(ctx, rule="PATHCOUNT"):
             guards = [(U(t), p) for t, p in si.effective_guards(r)]
             empty_ok = any((t in (f"len({em_p}) == 0", f"not {em_p}", f"len({em_p}) < 1") and p) or (t in (f"len({em_p}) > 0", em_p, f"len({em_p}) != 0", f"len({em_p}) >= 1") and not p)
                            for t, p in guards)
-            if not empty_ok:
+            # a return after the last loop over the frame's droplets (e.g. in front of a log message) skips nothing
+            em_loops = [lp for lp in walk_no_nested(fi.node) if isinstance(lp, ast.For) and em_p in names_in(lp.iter)]
+            after_all = bool(em_loops) and all(fv.dominates(lp, r) and not any(x is r for x in ast.walk(lp)) for lp in em_loops)
+            if not empty_ok and not after_all:
                 bad = r
                 break
         n += 1
